@@ -40,6 +40,9 @@ func runC19(t *rapid.T) {
 	if core.Thorough() {
 		b.MaxCols, b.MaxRows = 6, 48
 	}
+	if gen.Rare(t, "wide", 25) {
+		b.MinCols, b.MaxCols, b.MaxRows = 9, 14, 4 // two-digit placeholder numbers
+	}
 	var fs *gen.FrameSpec
 	if gen.Rare(t, "big", 1500) {
 		fs = gen.DrawBigFrame(t, 300, 1500) // many statements in one transaction
@@ -312,7 +315,11 @@ func readBack(t *rapid.T, tr *c19Trace, tx *sql.Tx, readConf []qsql.ConfigFunc, 
 			}
 			for r := range exp.Cols[c] {
 				want, got := floatOf(exp.Cols[c][r]), floatOf(gotObs.Cols[c][r])
+				if math.IsNaN(want) && which == "null-floats" {
+					continue // a NULL is NaN whatever the precision: compared as is
+				}
 				if math.IsNaN(want) || math.IsInf(want, 0) || math.Abs(want) > 1e9 {
+					// rounding a stored NaN/Inf/huge value is not specified
 					gotObs.Cols[c][r] = exp.Cols[c][r]
 					continue
 				}
